@@ -1,0 +1,107 @@
+//go:build verif
+
+// Package verifhook holds instrumentation points used by the external verification harness.
+// With the "verif" build tag the harness can install handlers; with no handler installed every
+// function returns immediately, so behaviour is unchanged.
+package verifhook
+
+import (
+	"sync"
+	"sync/atomic"
+	"time"
+)
+
+// Enabled reports whether the hooks are compiled in.
+const Enabled = true
+
+var (
+	pointHandler atomic.Pointer[func(name string)]
+	yieldHandler atomic.Pointer[func(name string)]
+	asyncCount   atomic.Int64
+)
+
+// SetPointHandler installs (or, with nil, removes) the handler called at every Point.
+func SetPointHandler(h func(name string)) {
+	if h == nil {
+		pointHandler.Store(nil)
+		return
+	}
+	pointHandler.Store(&h)
+}
+
+// SetYieldHandler installs (or, with nil, removes) the handler called at every Yield.
+func SetYieldHandler(h func(name string)) {
+	if h == nil {
+		yieldHandler.Store(nil)
+		return
+	}
+	yieldHandler.Store(&h)
+}
+
+// Point marks a named fault-injection point.
+func Point(name string) {
+	if h := pointHandler.Load(); h != nil {
+		(*h)(name)
+	}
+}
+
+// Yield marks a named scheduling point.
+func Yield(name string) {
+	if h := yieldHandler.Load(); h != nil {
+		(*h)(name)
+	}
+}
+
+// AsyncBegin marks the start of a fire-and-forget goroutine.
+func AsyncBegin() { asyncCount.Add(1) }
+
+// AsyncEnd marks the end of a fire-and-forget goroutine.
+func AsyncEnd() { asyncCount.Add(-1) }
+
+// AsyncPending returns the number of fire-and-forget goroutines still running.
+func AsyncPending() int64 { return asyncCount.Load() }
+
+// WaitAsyncIdle waits until no fire-and-forget goroutine is running or the timeout passes.
+func WaitAsyncIdle(timeout time.Duration) bool {
+	deadline := time.Now().Add(timeout)
+	for asyncCount.Load() != 0 {
+		if time.Now().After(deadline) {
+			return false
+		}
+		time.Sleep(50 * time.Microsecond)
+	}
+	return true
+}
+
+// VirtualClock is a manually advanced clock that satisfies the server's clock interface.
+type VirtualClock struct {
+	mu  sync.Mutex
+	now time.Time
+}
+
+// NewVirtualClock returns a clock standing at start.
+func NewVirtualClock(start time.Time) *VirtualClock { return &VirtualClock{now: start} }
+
+// Now returns the virtual time.
+func (c *VirtualClock) Now() time.Time {
+	c.mu.Lock()
+	defer c.mu.Unlock()
+	return c.now
+}
+
+// After follows real time; no server code path used by the checks depends on it.
+func (c *VirtualClock) After(d time.Duration) <-chan time.Time { return time.After(d) }
+
+// Advance moves the clock forward by d.
+func (c *VirtualClock) Advance(d time.Duration) {
+	c.mu.Lock()
+	c.now = c.now.Add(d)
+	c.mu.Unlock()
+}
+
+// Set moves the clock to t.
+func (c *VirtualClock) Set(t time.Time) {
+	c.mu.Lock()
+	c.now = t
+	c.mu.Unlock()
+}
